@@ -146,6 +146,9 @@ def check_int(ctx, n, alpha, seen, klass):
         ctx.nontrivial(f"{klass}:{n}")
 
 
+PARAMETER = {"uuid_from_str": "uuid_str", "uuid_from_short_str": "uuid_short_str"}
+
+
 def check_string(ctx, s, alpha, klass):
     case = {"kind": "str", "value": s, "class": klass}
     expected = model_valid(s, alpha)
@@ -158,15 +161,21 @@ def check_string(ctx, s, alpha, klass):
         if fname == "uuid_from_short_str" and not (len(s) == 22 and all(c in alpha for c in s)):
             exp = None  # canonical forms are not short strings
         try:
+            # (every third call names its argument: uuid_from_str(uuid_str=...), uuid_from_short_str(uuid_short_str=...))
+            by_name = len(s) % 3 == 1
+            call = (lambda: getattr(short_uuid, fname)(**{PARAMETER[fname]: s})) if by_name else \
+                (lambda: getattr(short_uuid, fname)(s))
+            if by_name:
+                ctx.count("strings_given_as_a_named_argument")
             if len(s) % 2:
                 # the caller is in the middle of handling an error of its own (a fallback path)
                 try:
                     raise ZeroDivisionError("the caller's own trouble")
                 except ZeroDivisionError:
-                    got = getattr(short_uuid, fname)(s)
+                    got = call()
                 ctx.count("strings_judged_while_the_caller_handles_another_error")
             else:
-                got = getattr(short_uuid, fname)(s)
+                got = call()
         except ValueError:
             if len(s) % 2:
                 ctx.count("strings_judged_while_the_caller_handles_another_error")
